@@ -16,7 +16,7 @@ def c17(tier):
         raise vlib.Inconclusive("Readdir model violates %s:\n%s" % (r.violation, r.out[-3000:]))
     ck.add_cov(states=r.distinct, transitions=r.generated, exhaustive=True, tlc_runs=[{"cfg": cfg, "edges_emitted": r.nprinted, **r.summary()}])
     try:
-        doc = harness(["readdir", "-lts", p, "-random", "200" if tier == "quick" else "2000", "-client", "60" if tier == "quick" else "600"], timeout=2400)
+        doc = harness(["readdir", "-lts", p, "-random", "200" if tier == "quick" else "2000", "-client", "60" if tier == "quick" else "600"], timeout=2400 if tier == "quick" else 4200)
     finally:
         os.unlink(p)
     if tier != "quick":
